@@ -55,8 +55,8 @@ type routerFx struct {
 	name    string
 	router  uint64
 	chainID uint64
-	extra   []byte                 // SideChain.ExtraInfo
-	genesis func(v string) []byte  // well-formed genesis of variant v
+	extra   []byte                                               // SideChain.ExtraInfo
+	genesis func(v string) []byte                                // well-formed genesis of variant v
 	syncer  func(fx *routerFx, installed string, n int) [][]byte // optional: n-th acceptable next header(s) after genesis `installed`
 }
 
